@@ -6,6 +6,8 @@ CONSTANTS
   CpropSet = {"nl"}
   CmtSet = {"multi"}
   RuleSet = {"asc", "na"}
+  AtAttr = {"-"}
+  Extra = {}
 INVARIANT DesignAccepted
 INVARIANT EmitVec
 CHECK_DEADLOCK FALSE
